@@ -434,6 +434,9 @@ func (g *Gen) Build() {
 	for i := 0; i < nm; i++ {
 		name := g.name("m")
 		m := &Mod{Name: name, Prefix: g.name("p"), NS: "urn:" + name}
+		if len(mods) > 0 && g.pick(4) == 0 {
+			m.Prefix = mods[0].Prefix // modules may declare the same prefix for themselves
+		}
 		m.Body = &Scope{File: m}
 		// imports of earlier modules
 		for _, e := range mods {
